@@ -4,6 +4,7 @@ import (
 	"errors"
 	"fmt"
 	"io"
+	"regexp"
 	"runtime"
 	"strings"
 	"sync"
@@ -288,6 +289,8 @@ func c04Overlap(c *C) {
 	c.Nontrivial(fmt.Sprintf("overlap:%d:%d", depth, kind))
 }
 
+var reBlockName = regexp.MustCompile(`\{%-?\s*block\s+([A-Za-z_][A-Za-z0-9_]*)`)
+
 // c04ParkLoader: a memory loader in which ONE armed call of Abs or Get (for one name) waits until it is released.
 type c04ParkLoader struct {
 	files    map[string]string
@@ -489,6 +492,45 @@ func c04Run(c *C) {
 			}
 			c.Eval(1)
 			trace = append(trace, D{"step": i, "extra": "an ExecuteWriter/ExecuteWriterUnbuffered call whose writer failed"})
+		}
+		if r.Chance(25) {
+			// block by block: ExecuteBlocks with a list of names - real ones, unknown ones, names that are no identifiers (an
+			// unsplit request parameter "a,b"), duplicates, the empty list - gives what a fresh compile gives for that list
+			var real []string
+			for _, m := range reBlockName.FindAllStringSubmatch(p.main, -1) {
+				real = append(real, m[1])
+			}
+			for _, f := range p.files {
+				for _, m := range reBlockName.FindAllStringSubmatch(f, -1) {
+					real = append(real, m[1])
+				}
+			}
+			real = append(real, "nosuchblock")
+			var names []string
+			for k := r.Intn(4); k > 0; k-- {
+				names = append(names, real[r.Intn(len(real))])
+			}
+			switch r.Intn(5) {
+			case 0:
+				names = []string{strings.Join(names, ",")}
+			case 1:
+				names = append(names, strings.Join(names, ","), "")
+			case 2:
+				names = append(names, names...)
+			}
+			bctx := pool[hist[i]]
+			gotB, gotErr := used.ExecuteBlocks(bctx, append([]string(nil), names...))
+			if freshB, _, fe := detCompile(p, opt, onSet, false); fe == nil {
+				wantB, wantErr := freshB.ExecuteBlocks(bctx, append([]string(nil), names...))
+				c.Eval(2)
+				gs, ws := fmt.Sprint(gotB, errStr(gotErr)), fmt.Sprint(wantB, errStr(wantErr))
+				trace = append(trace, D{"step": i, "extra": fmt.Sprintf("ExecuteBlocks(%q)", names), "used": q(truncStr(gs, 300)), "fresh": q(truncStr(ws, 300))})
+				if gs != ws {
+					c.Fail("history-dependent", D{"main": q(p.main), "files": p.files, "entry": "ExecuteBlocks", "names": names, "history": trace})
+					return
+				}
+				c.Cover("history_with_execute_blocks")
+			}
 		}
 		got, rawErr := detExecErr(used, pool[hist[i]], which)
 		if rawErr != nil {
